@@ -209,20 +209,20 @@ def _short_task(t):
 
 def run(ctx, res):
     sd = seeds(6)
-    accs, st = rewrite.explore(ctx, sd, neighbours, judge, depth=1)
+    accs, st = rewrite.explore(ctx, sd, neighbours, judge, depth=1, tag="depth1")
     ctx.log("edit graph depth 1: %d nodes, %d edges" % (st["nodes"], st["edges"]))
     stats = {"depth1": st}
     # depth 2 with field-level rewrites only, on the minimal seeds
     mins = seeds(1)
     if not ctx.thorough:
         mins = mins[:1] + mins[2:3]   # v2 and v3.1
-    accs2, st2 = rewrite.explore(ctx, mins, neighbours_fields_only, judge, depth=2)
+    accs2, st2 = rewrite.explore(ctx, mins, neighbours_fields_only, judge, depth=2, tag="fields2")
     ctx.log("field-edit graph depth 2: %d nodes, %d edges" % (st2["nodes"], st2["edges"]))
     stats["fields_depth2"] = st2
     if ctx.thorough:
         # character-level distance 2 around the minimal v2 vector
         accs_c, st_c = rewrite.explore(ctx, seeds(1)[:1], lambda s, level: char_edits(s), judge,
-                                       depth=2, parts=256)
+                                       depth=2, parts=256, tag="chars2")
         ctx.log("char-edit graph depth 2: %d nodes, %d edges" % (st_c["nodes"], st_c["edges"]))
         stats["chars_depth2_v2_minimal"] = st_c
         accs2 = accs2 + accs_c
@@ -232,7 +232,7 @@ def run(ctx, res):
     maxlen = 6 if ctx.thorough else 5
     firsts = [c for c in chars]
     tasks = [(chars, [c1 + c2 for c2 in chars], maxlen) for c1 in firsts]
-    accs3 = core.pool_map(_short_task, tasks)
+    accs3 = core.task_map(_short_task, tasks)
     short_n = sum(a["n"] for a in accs3)
     extra = sweep.new_acc()
     for s in [""] + firsts:
@@ -272,3 +272,36 @@ def replay(case):
     s, major = case["input"], case["major"]
     want, got = T.classify_class(major, s), observe(major, s)
     return want != got, "grammar %s, constructor %s" % (want, got)
+
+
+class _Ctx(object):
+    thorough = False
+
+    def rot(self, x):
+        return list(x)
+
+    def log(self, *a):
+        pass
+
+
+def replay_task(case):
+    t = case["task"]
+    if isinstance(t, dict):
+        return core.replay_func_task(case)
+    tag, level, chunk, parts = t
+    tier = case.get("tier") or "quick"
+    if tag == "depth1":
+        accs, _ = rewrite.explore(_Ctx(), seeds(6), neighbours, judge, 1, parts, tag, (level, chunk), case["input"])
+    elif tag == "fields2":
+        mins = seeds(1)
+        if tier != "thorough":
+            mins = mins[:1] + mins[2:3]
+        accs, _ = rewrite.explore(_Ctx(), mins, neighbours_fields_only, judge, 2, parts, tag, (level, chunk), case["input"])
+    else:
+        accs, _ = rewrite.explore(_Ctx(), seeds(1)[:1], lambda s, level: char_edits(s), judge, 2, parts, tag,
+                                  (level, chunk), case["input"])
+    for a in accs:
+        for c in a.get("bad", []):
+            if c.get("input") == case["input"] and c.get("major") == case.get("major"):
+                return True, c["what"]
+    return False, "the chunk no longer fails on %r" % (case["input"],)
